@@ -28,6 +28,7 @@ import (
 	"sort"
 	"strconv"
 	"strings"
+	"syscall"
 	"time"
 
 	"verif/h/fw"
@@ -81,7 +82,7 @@ type target struct {
 	name   string
 	mk     func() interface{} // fresh pointer to decode into
 	schema *refrlp.Schema
-	fromGo bool                                     // refrlp.FromGo models the Go type
+	fromGo bool                                    // refrlp.FromGo models the Go type
 	post   func(ptr interface{}, in []byte) string // extra value check after an accepted decode
 }
 
@@ -778,7 +779,16 @@ func (r *runner) input(in []byte, ts []*target, deep, alloc bool) {
 	}
 }
 
+// limitMemory caps the address space of this worker process: a decoder that
+// allocates what an input merely declares must crash this worker (reported by
+// the framework as a violation), not exhaust the machine.
+func limitMemory() {
+	lim := syscall.Rlimit{Cur: 4 << 30, Max: 4 << 30}
+	syscall.Setrlimit(syscall.RLIMIT_AS, &lim)
+}
+
 func run(c *fw.Ctx) {
+	limitMemory()
 	r := &runner{c: c}
 	defer func() {
 		c.Eval(r.evals)
@@ -798,6 +808,13 @@ func run(c *fw.Ctx) {
 	for _, t := range targets {
 		rlp.DecodeBytes([]byte{0x80}, t.mk())
 		rlp.EncodeToBytes(t.mk())
+	}
+	// CPU time per phase, summed over workers (reporting only, never an oracle)
+	t0 := cpuMs()
+	phase := func(name string) {
+		t1 := cpuMs()
+		c.Count("cpu_ms_"+name, t1-t0)
+		t0 = t1
 	}
 
 	// (iii) value round trips
@@ -821,6 +838,8 @@ func run(c *fw.Ctx) {
 		}
 	}
 	c.Count("value_roundtrips", nvals)
+	c.Sample(kase{Part: "value", Group: "eth_tx.Transaction", Idx: 4711, Tho: c.Thorough()})
+	phase("values")
 
 	// (i) all byte strings of length 0..2, every type, with the over-read oracle on every case
 	buf := make([]byte, 0, 4)
@@ -838,8 +857,13 @@ func run(c *fw.Ctx) {
 			r.input(buf, targets, true, false)
 			nstr++
 		}
+		if r.expired() {
+			c.Cap("time budget during the strings of length <= 2")
+			return
+		}
 	}
-	c.Sample(map[string]string{"part": "decode", "in": "c180", "types": "all"})
+	c.Sample(map[string]string{"part": "decode", "in": "c2c105", "types": "all " + strconv.Itoa(len(targets))})
+	phase("len0to2")
 
 	// (ii) grammar family and field substitutions
 	ng := int64(0)
@@ -856,6 +880,8 @@ func run(c *fw.Ctx) {
 		return
 	}
 	c.Count("grammar_inputs", ng)
+	c.Sample(map[string]string{"part": "decode+alloc", "in": "c9 bf ffffffffffffffff", "types": "all"})
+	phase("grammar")
 	nf := int64(0)
 	forEachFieldSubst(c.Thorough(), func(t *target, in []byte) bool {
 		if !r.mine() {
@@ -870,10 +896,15 @@ func run(c *fw.Ctx) {
 		return
 	}
 	c.Count("field_substitution_inputs", nf)
+	phase("fields")
 
-	// (i) continued: all byte strings of length 3
-	first := 0
-	for x := first; x < 1<<24; x++ {
+	// (i) continued: byte strings of length 3.  thorough: all of them.  quick: those whose
+	// first byte starts a header (>= 0x80) or is one of the single-byte representatives 0x00, 0x7f
+	// (a first byte < 0x80 makes the rest trailing data, which lengths 1..2 already cover).
+	for x := 0; x < 1<<24; x++ {
+		if !c.Thorough() && x>>16 < 0x80 && x>>16 != 0x00 && x>>16 != 0x7f {
+			continue
+		}
 		if !r.mine() {
 			continue
 		}
@@ -882,14 +913,49 @@ func run(c *fw.Ctx) {
 		r.input(buf, targets, false, false)
 		nstr++
 		if r.expired() {
-			c.Cap(fmt.Sprintf("time budget during the length-3 strings (this worker reached 0x%06x of 0xffffff)", x))
+			c.Cap("time budget during the length-3 strings")
 			break
 		}
 	}
 	c.Count("byte_strings_upto3", nstr)
+	phase("len3")
+
+	// thorough: every length-4 string that is a list with a 3-byte payload (0xC3 ** ** **),
+	// against the list-kind and generic targets.
+	if c.Thorough() && !r.capped {
+		var lts []*target
+		for _, t := range targets {
+			if t.schema.Accept([]byte{0x80}) == refrlp.RExpectedList || t.schema.Kind == refrlp.KAny || t.schema.Kind == refrlp.KRaw {
+				lts = append(lts, t)
+			}
+		}
+		n4 := int64(0)
+		for x := 0; x < 1<<24; x++ {
+			if !r.mine() {
+				continue
+			}
+			buf = buf[:4]
+			buf[0], buf[1], buf[2], buf[3] = 0xC3, byte(x>>16), byte(x>>8), byte(x)
+			r.input(buf, lts, false, false)
+			n4++
+			if r.expired() {
+				c.Cap("time budget during the length-4 lists")
+				break
+			}
+		}
+		c.Count("byte_strings_len4_lists", n4)
+		c.Note("len4_list_targets", len(lts))
+		phase("len4")
+	}
 	c.Note("types", len(targets))
 	c.Note("trie_nodes", "skipped: trie.decodeNode is unexported and no verif hook exports it; its building blocks rlp.Split/SplitList/SplitString/CountValues are covered by the bytes oracle")
-	c.Note("outside_bound", "byte strings of length >= 4 outside the header grammar and the field-substitution families; Decode from an unbounded io.Reader; recursion depth beyond 3")
+	c.Note("outside_bound", "byte strings of length >= 4 outside the header grammar, the field-substitution families and (thorough) the 0xC3-lists; Decode from an unbounded io.Reader; nesting deeper than 3")
+}
+
+func cpuMs() int64 {
+	var ru syscall.Rusage
+	syscall.Getrusage(syscall.RUSAGE_SELF, &ru)
+	return (ru.Utime.Sec+ru.Stime.Sec)*1000 + int64(ru.Utime.Usec+ru.Stime.Usec)/1000
 }
 
 func replay(c *fw.Ctx, raw json.RawMessage) {
@@ -897,6 +963,7 @@ func replay(c *fw.Ctx, raw json.RawMessage) {
 	if err := json.Unmarshal(raw, &k); err != nil {
 		panic(err)
 	}
+	limitMemory()
 	for _, t := range targets {
 		rlp.DecodeBytes([]byte{0x80}, t.mk())
 	}
@@ -922,7 +989,7 @@ func main() {
 			if t == "thorough" {
 				return 17 * time.Minute
 			}
-			return 55 * time.Second
+			return 70 * time.Second
 		},
 	})
 }
